@@ -176,6 +176,13 @@ Section Hist.
   Lemma same_core_trans w1 w2 w3 : same_core w1 w2 -> same_core w2 w3 -> same_core w1 w3.
   Proof. unfold same_core. intuition congruence. Qed.
 
+  Lemma HIb_core w w' K : same_core w w' -> HIb w K -> HIb w' K.
+  Proof.
+    intros (A1 & A2 & A3 & A4 & A5 & A6 & A7 & A8 & A9 & A10 & A11)
+           (H1 & H2 & H3 & H4 & H5 & H6 & H7 & H8 & H9 & H10).
+    unfold HIb, len_ok. rewrite A1, A2, A5, A6, A9, A10. repeat split; auto.
+  Qed.
+
   Lemma HI_core w w' K cur : same_core w w' -> HI w K cur -> HI w' K cur.
   Proof.
     intros (A1 & A2 & A3 & A4 & A5 & A6 & A7 & A8 & A9 & A10 & A11)
